@@ -8,6 +8,7 @@ use std::io::{Read, Seek, SeekFrom, Write};
 pub mod alloc;
 pub mod codec;
 pub mod crash;
+pub mod decodeh;
 pub mod faults;
 pub mod flacfile;
 pub mod io;
